@@ -179,8 +179,36 @@ def harness_bin(profile):
     return os.path.join(WORK, "target", profile, "harness")
 
 
-def run_cases(binary, cases, tag, shards=16, timeout=3000):
-    """run `binary casefile` over shards in parallel; returns list of output lines (aligned with cases)"""
+def _run_shard(binary, chunk, fn, timeout):
+    """run one shard; a case that kills the process (abort, segfault, timeout) is reported as
+    RUNNER-ABORTED and the run resumes with the next case"""
+    lines = []
+    start = 0
+    while start < len(chunk):
+        with open(fn, "w") as f:
+            f.write("\n".join(chunk[start:]) + "\n")
+        try:
+            p = subprocess.run(["timeout", str(timeout), binary, fn], stdout=subprocess.PIPE, stderr=subprocess.DEVNULL)
+            out = p.stdout.decode("utf-8", "replace").split("\n")
+            rc = p.returncode
+        except Exception as e:  # pragma: no cover
+            out, rc = [], -1
+        if out and out[-1] == "":
+            out.pop()
+        want = len(chunk) - start
+        if len(out) >= want:
+            lines += out[:want]
+            break
+        lines += out
+        lines.append("RUNNER-ABORTED rc=%s" % rc)
+        start += len(out) + 1
+    os.unlink(fn)
+    return lines
+
+
+def run_cases(binary, cases, tag, shards=16, timeout=1200):
+    """run `binary casefile` over shards in parallel; returns output lines aligned with cases"""
+    from concurrent.futures import ThreadPoolExecutor
     d = os.path.join(WORK, "cases")
     os.makedirs(d, exist_ok=True)
     n = len(cases)
@@ -188,26 +216,14 @@ def run_cases(binary, cases, tag, shards=16, timeout=3000):
         return []
     shards = max(1, min(shards, (n + 49) // 50))
     per = (n + shards - 1) // shards
-    procs = []
+    jobs = []
     for i in range(shards):
         chunk = cases[i * per:(i + 1) * per]
-        if not chunk:
-            continue
-        fn = os.path.join(d, "%s.%d.%d.cases" % (tag, os.getpid(), i))
-        with open(fn, "w") as f:
-            f.write("\n".join(chunk) + "\n")
-        procs.append((fn, len(chunk), subprocess.Popen(["timeout", str(timeout), binary, fn], stdout=subprocess.PIPE,
-                                                       stderr=subprocess.DEVNULL)))
-    lines = []
-    for fn, cnt, p in procs:
-        out = p.communicate()[0].decode("utf-8", "replace").split("\n")
-        if out and out[-1] == "":
-            out.pop()
-        if len(out) < cnt:  # crashed / timed out mid-way
-            out += ["RUNNER-ABORTED rc=%s" % p.returncode] * (cnt - len(out))
-        lines += out[:cnt]
-        os.unlink(fn)
-    return lines
+        if chunk:
+            jobs.append((chunk, os.path.join(d, "%s.%d.%d.cases" % (tag, os.getpid(), i))))
+    with ThreadPoolExecutor(max_workers=16) as ex:
+        res = list(ex.map(lambda j: _run_shard(binary, j[0], j[1], timeout), jobs))
+    return [l for r in res for l in r]
 
 
 # ------------------------------------------------------------- main logic
